@@ -552,6 +552,14 @@ def observe(ctx, ix, probes, removed=None):
                     hits = s2.search(q, limit=None)
                     res[(wname, name)] = dict((s2.stored_fields(h.docnum).get("id"), h.score) for h in hits)
                     ctx.count("c06.probe.searches")
+                    # layout-independent self-consistency: what a limited search returns must be among the documents
+                    # the unlimited search of the SAME index returns (a physically present deleted document must not
+                    # come back when the top-N collector skips to its posting block)
+                    alld = set(h.docnum for h in hits)
+                    lim = [h.docnum for h in s2.search(q, limit=2)]
+                    ctx.count("c06.probe.limited_searches")
+                    if not set(lim) <= alld or len(lim) != min(2, len(alld)):
+                        out.setdefault("limited_bad", []).append((wname, name, lim, sorted(alld)[:20]))
             finally:
                 if s2 is not s:
                     s2.close()
@@ -703,6 +711,11 @@ def one_case(ctx, rng, idx):
                 sect = diffs[0].split("/")[1].split(":")[0] if diffs and "/" in diffs[0] else "?"
                 sub = diffs[0].split("/")[2].split(":")[0] if sect in ("lengths", "columns", "vectors") and diffs[0].count("/") >= 2 else ""
                 ctx.fail("c06.dump", "dump.%s%s" % (sect, (":" + sub) if sub else ""), w, "reference (left) vs history (right): " + " || ".join(diffs))
+            # (1b) limited searches return only documents the unlimited search of the same index returns
+            if obs.get("limited_bad"):
+                wn, pn, lim, alld = obs["limited_bad"][0]
+                ctx.fail("c06.limited", "limited-hit-outside-unlimited-result:%s" % pn, dict(w, probe=pn, weighting=wn),
+                         "search(limit=2) returned doc numbers %r, search(limit=None) %r" % (lim, alld))
             # (2) model
             if nfail(ctx) == nf0:
                 _check_model(ctx, w, "history", obs, exp_stored, exp_members, exp_nparent, exp_nchildren)
